@@ -18,7 +18,17 @@ from ..learners import ExactLearner, hypotheses
 
 logging.getLogger("fairlearn").setLevel(logging.ERROR)
 
-TOL = 1e-7          # scipy.linprog (HiGHS) feasibility/optimality tolerance + float rounding
+TOL = 1e-7          # scipy.linprog (HiGHS) feasibility/optimality tolerance + float rounding (LP residual relations of egreplay)
+# review R2 — the relations below compare best_gap_ / weights_ with quantities evaluated EXACTLY at the recorded float
+# (weights_, multiplier): HiGHS's tolerance does not enter.  Measured on the clean tree (720 fits, seeds 0..2):
+#   |best_gap_ - exact gap of the matching multiplier| / max(1,|g|) <= 1.2e-14 ; exact gap - best_gap_ <= 1.2e-14 ;
+#   min(weights_) >= 0 exactly ; |sum(weights_) - 1| <= 5.8e-15 ; |_pmf_predict - mixture| <= 1.1e-16 ; min multiplier >= 0.
+PRECISION = 1e-8    # fairlearn's _PRECISION: best_gap_ may understate the true gap by up to this much (theorem
+                    # C08.classGap_le_evalGap_gap, witnesses C08.precision_slack_needed and corpus/C08/r2-precision-slack-witness.py)
+ROUND = 1e-12       # float rounding of the gap / guarantee relations (< 100 x 1.2e-14; was 1e-7 together with the slack)
+W_TOL = 5e-13       # weights_ is a probability vector (< 100 x 5.8e-15; was 1e-7)
+PMF_TOL = 1e-14     # _pmf_predict is the weights_-mixture (100 x 1.1e-16; was 1e-9)
+LAM_TOL = 1e-12     # recorded multipliers are non-negative (measured: exactly; was 1e-7)
 
 # The source fragments the model is generated from (Generated/EGGen.lean), as the lifter reports them for the
 # tree the oracle below was written against.  While they are unchanged a model/oracle disagreement is a bug of
@@ -185,7 +195,9 @@ class CHECK(Check):
     explanation = ("theorems over Model/Saddle.lean, Model/EGLoop.lean, Model/LinProg.lean + Generated/EGGen, EGLoopGen, LinProgGen; the "
                    "true gap of (weights_, recorded multiplier) is recomputed exactly by the driver for the EG-average and the LP "
                    "multiplier of the returned iteration; the loop replay additionally determines WHICH of the two was used "
-                   "(evidence tag loop:returned=EG|LP-iterate).  Loop-level comparison tolerance: 1e-9*max(1,B) on multipliers and "
+                   "(evidence tag loop:returned=EG|LP-iterate).  Property-level tolerances (review R2, measured): best_gap_ vs exact gap and "
+                   "the two guarantees: _PRECISION (1e-8, the proven slack of the best_h cache) + 1e-12*max(1,g); weights_ a "
+                   "probability vector: 5e-13; pmf = mixture: 1e-14; multipliers >= -1e-12.  Loop-level comparison tolerance: 1e-9*max(1,B) on multipliers and "
                    "gaps, 1e-9 on weights, 1e-12 on LP matrix entries, 1e-7*max(1,B) on LP residuals / primal-dual objective equality.  "
                    "A branch decision of the float implementation whose two sides differ by < 1e-11 (relative) in exact arithmetic "
                    "(idxmin ties between stored classifiers at uniform multipliers, gap_EG = gap_LP = 0, ...) may legitimately go the "
@@ -448,13 +460,13 @@ class CHECK(Check):
         P, H, errs, gams = table_of(case)
         B = 1 / F(case["eps"])
         g = o["best_gap"]
-        tol = TOL * max(1.0, abs(g))
+        tol = PRECISION + ROUND * max(1.0, abs(g))
         # -- Q is a probability vector over predictors_ ------------------------------------------------------
         w = o["weights"]
         if (not o["weights_index_ok"]) or len(w) != len(o["predictors"]):
             probs.append(Problem("property", "weights_ and predictors_ are not indexed alike", "C08.Q-distribution"))
             return probs
-        if min(w) < -TOL or abs(sum(w) - 1.0) > TOL:
+        if min(w) < -W_TOL or abs(sum(w) - 1.0) > W_TOL:
             probs.append(Problem("property", f"weights_ is not a probability vector: min {min(w)}, sum {sum(w)}",
                                  "C08.Q-distribution"))
         Q = self._q(H, o)
@@ -472,7 +484,7 @@ class CHECK(Check):
         # -- certificate: best_gap_ >= true duality gap of (Q, recorded multiplier) --------------------------------
         cands = []
         for name, lam in self._lams(P, o):
-            if min(lam) < -F(1, 10 ** 7):
+            if float(min(lam)) < -LAM_TOL:
                 probs.append(Problem("property", f"recorded multiplier {name} has a negative entry {float(min(lam))}",
                                      "C08.saddle_error hypothesis lambda >= 0"))
             cands.append((name,) + self._true_gap(P, errs, gams, Q, lam, B))
@@ -506,7 +518,7 @@ class CHECK(Check):
             probs.append(Problem("correspondence", "a user-supplied nu was changed by fit", "C08.nu"))
         # -- pmf is the mixture ----------------------------------------------------------------------------------
         mix = [sum(wi * lab[j] for wi, lab in zip(w, o["predictors"])) for j in range(len(o["pmf1"]))]
-        if any(abs(a - b_) > 1e-9 for a, b_ in zip(mix, o["pmf1"])) or any(abs(s - 1) > 1e-9 for s in o["pmf_rows_sum"]):
+        if any(abs(a - b_) > PMF_TOL for a, b_ in zip(mix, o["pmf1"])) or any(abs(s - 1) > PMF_TOL for s in o["pmf_rows_sum"]):
             probs.append(Problem("property", f"_pmf_predict {o['pmf1']} is not the weights_-mixture of predictors_ {mix}",
                                  "C08.pmf"))
         # -- automatic nu (nu=None): _ACCURACY_MUL * std(|h_0(X) - y|) / sqrt(n), h_0 = the first best response --------------
@@ -634,7 +646,7 @@ class CHECK(Check):
                 tags.append("dummy-used")
             if Q is not None and sorted(map(tuple, o["lam_index"])) == sorted(P.index):
                 gaps = {name: float(self._true_gap(P, errs, gams, Q, lam, B)[4]) for name, lam in self._lams(P, o)}
-                tol = TOL * max(1.0, abs(o["best_gap"]))
+                tol = PRECISION + ROUND * max(1.0, abs(o["best_gap"]))
                 m = [n for n, t in gaps.items() if abs(t - o["best_gap"]) <= tol]
                 tags.append("branch=" + ("+".join(sorted(m)) if m else "none"))
                 mv = float(self._true_gap(P, errs, gams, Q, self._lams(P, o)[0][1], B)[5])
